@@ -447,6 +447,18 @@ func (w *World) CheckKids(tx *bbolt.Tx, m *Model) error {
 			if _, lerr := ks.LoadById(tx, id); (lerr == nil) != found {
 				return fmt.Errorf("child store %s: LoadById(%q) err=%v but FindById found=%v", name, id, lerr, found)
 			}
+			// loading into a caller-supplied, fresh entity
+			fresh := &Kid{}
+			if lfound, lerr := ks.LoadEntity(tx, id, fresh); lerr != nil || lfound != found {
+				return fmt.Errorf("child store %s: LoadEntity(%q) found=%v err=%v, FindById found=%v", name, id, lfound, lerr, found)
+			} else if found {
+				if d := diffEnt(&fresh.Ent, me); d != "" {
+					return fmt.Errorf("child store %s: LoadEntity(%q) into a fresh entity (shared fields) differs from model: %s", name, id, d)
+				}
+				if has && fresh.Extra != extra {
+					return fmt.Errorf("child store %s: LoadEntity(%q) into a fresh entity: extra %q, model %q", name, id, fresh.Extra, extra)
+				}
+			}
 			if found {
 				if d := diffEnt(&k.Ent, me); d != "" {
 					return fmt.Errorf("child store %s entity %q (shared fields) differs from model: %s", name, id, d)
